@@ -40,7 +40,7 @@ class Run:
                 msg = f"{cls.name}.{op}: {n}"
                 if msg not in self.imprecise:
                     self.imprecise.append(msg)
-            if len(ps) > 2500:
+            if len(ps) >= ctx.max_paths:
                 # the rules compare the paths of the four operations pairwise: beyond this the comparison itself does not end in useful time
                 raise AnalysisError(f"{cls.name}.{op}: {len(ps)} paths (path explosion) — no verdict")
             self._facts[k] = ps
